@@ -250,6 +250,11 @@ SORT_WITNESSES = [
       oracle="contains", contains='-- stylua: ignore start\nlocal polyfill   =  require("polyfill")\n\nlocal globals = require("globals")\nlocal app   = require("app")\n-- stylua: ignore end\n\nlocal alpha = require("alpha")\nlocal zeta = require("zeta")\n', **SR),
     w('-- stylua: ignore start\nlocal b   = require("b")\nlocal a = require("a")\n\n-- stylua: ignore end\nlocal lone = require("lone")\n\nlocal d = require("d")\nlocal c = require("c")\n',
       oracle="contains", contains='local c = require("c")\nlocal d = require("d")\n', **SR),
+    # seed C12-6: a directive in a block comment on the line of a member that is not the first of its group is seen although an earlier member is already ignored
+    w('-- stylua: ignore\nlocal zeta   = require("zeta")\n--[[ stylua: ignore start ]] local yak   = require("yak")\n\nlocal delta   = require("delta")\nlocal charlie   = require("charlie")\n\n-- stylua: ignore end\nlocal bravo = require("bravo")\nlocal alpha = require("alpha")\n',
+      oracle="contains", contains='local delta   = require("delta")\nlocal charlie   = require("charlie")\n', **SR),
+    w('-- stylua: ignore start\nlocal zeta   = require("zeta")\n--[[ stylua: ignore end ]] local yak = require("yak")\n\nlocal delta = require("delta")\nlocal charlie = require("charlie")\n',
+      oracle="contains", contains='local charlie = require("charlie")\nlocal delta = require("delta")\n', **SR),
     # a member that spans several lines does not split its group
     w('local Zebra = require(\n\tlong.path\n)\nlocal Apple = require("apple")\nlocal Mango = require("mango")\n', oracle="contains", contains='local Apple = require("apple")\nlocal Mango = require("mango")\nlocal Zebra = require(long.path)\n', **SR),
     # the sort is stable: requires bound to the same name keep their order (a later one shadows an earlier one)
@@ -303,6 +308,8 @@ C04_WITNESSES = [w(LIT_SRC, oracle="literals", syntax="lua54", quote_style=q) fo
     w('local x = 1_000 + 0b1010 + 1_.5 + 0xA_B\nlocal s = `interp {x} "q"`\n', oracle="literals", syntax="luau"),
     w('local s = "line one\\\r\nline two"\nlocal t = \'a\\\r\nb\'\n', oracle="literals", syntax="lua52"),
     w('local s = "line one\\\r\nline two"\n', oracle="literals", syntax="luau", line_endings="Windows"),
+    # seed C04-7: a long-bracket string as the first operand inside index brackets / a bracketed key: glued to the `[` it reads as a different literal
+    w('local v = t[([[k]]) .. "x"]\nlocal u = { [([[k]]) .. "x"] = 1 }\nlocal w = t[([=[k]=]) .. "x"] .. "]]"\nlocal z = t[ [[k]] .. "x" ] .. t[([[k]])]\n', oracle="literals"),
 ]
 WS_SRC = ('--[[ block\r\ncomment\nmixed\r\nendings ]]\nlocal   x = 1   -- trailing   \n\n\n\nif x then -- c\n\tprint(x)   \nend\n'
           'if x\n--[[ lead ]]\nthen\n  local t = {\n1,\n    2, -- two\n}\nend\nwhile x\n-- cm\ndo end\n-- eof comment\n\n\n')
@@ -341,7 +348,11 @@ a26, b30, c26 = "a" * 26, "b" * 30, "c" * 26
 PAREN_COMMENT_WITNESSES = [w('local x = ( --[[a]] y --[[b]] ) --[[c]]\nlocal z = ( -- d\n q)\nf(( --[[e]] g))\n', oracle="comments", sweep=(10, 120))]
 REHANG_WITNESSES = [w(f'return {a26} --[[c]], {b30}, {c26}\n', oracle="comments", sweep=(5, 120)),
                     w(f'local x, y = {a26} -- c\n, {b30}\nx, y = {a26} -- d\n, {b30}\n', oracle="comments", sweep=(5, 120))]
-SORT_COMMENT_WITNESSES = [w('local c = require("c")\n--[[ x ]] local a = require("a")\nlocal b = require("b") -- tb\n', oracle="comments", **SR)]
+SORT_COMMENT_WITNESSES = [w('local c = require("c")\n--[[ x ]] local a = require("a")\nlocal b = require("b") -- tb\n', oracle="comments", **SR),
+                          # seed C12-7: the `;` of a member owns its trailing comment and line break
+                          w('local Signal = require(Packages.Signal); -- events\nlocal Promise = require(Packages.Promise); -- async helpers\nlocal Maid = require(Packages.Maid) -- cleanup\n\nprint(Signal, Promise, Maid); -- done\n', oracle="comments", **SR),
+                          w('local Workspace = game:GetService("Workspace"); -- the world\n-- stylua: ignore\nlocal Players   = game:GetService("Players"); -- keep this one as written\nlocal Lighting = game:GetService("Lighting")\n', oracle="comments", **SR),
+                          w('local Workspace = game:GetService("Workspace"); -- the world\n-- stylua: ignore\nlocal Players   = game:GetService("Players"); -- keep this one as written\nlocal Lighting = game:GetService("Lighting")\n', oracle="parse", **SR)]
 # a line comment at a binary operator inside single-line contexts (D21): call arguments, index brackets, numeric for bounds
 BINOP_COMMENT_WITNESSES = [w('foo(a + b * -- comment\n c + d, e)\nfoo(a -- c\n + b)\nlocal t = a[b + -- c\n d]\nfor i = a + -- c\n b, 2 do end\nfoo(a)[b .. -- c\n d] = 1\nfoo((a + -- c\n b) * 2)\nfoo(a and -- why\n b or c)\nfoo((a -- p\n) + b)\nfoo(-(a -- q\n) .. b)\n', oracle="comments", sweep=(10, 120))]
 # a comment trailing a parenthesised table field value (D24); a line comment between a callee and its arguments (D25)
